@@ -1,8 +1,151 @@
-"""C08 - Pipeline operators route data as a reference interpreter (bounded stand-ins; contracts to be added)."""
+"""C08 - Pipeline operators route data as a reference interpreter.
+
+Contracts on the routing core of a TreeFn (`_get_inputs`, `_normalize_outputs`, `_get_outputs`) over the heap
+model of nested containers (A9), checked against the C18-proved contracts of TreeMapView (`__getitem__`,
+`copy_and_set`); the operator compositions (select / apply / assign / filter / sink chains, fused and named
+stages, build-time key validation) are decided by exhaustive native stand-ins, reported as bounded."""
+import importlib.util, os
+import z3
+from pyvc.contracts import Contract
+from pyvc.values import *   # pylint: disable=wildcard-import
+from pyvc.treeheap import VKeyPath
+
+_s = importlib.util.spec_from_file_location('c18', os.path.join(os.path.dirname(__file__), 'C18.py'))
+_c18 = importlib.util.module_from_spec(_s); _s.loader.exec_module(_c18)
+
 P = 'C08'
+TF = 'ml_metrics/_src/chainables/tree_fns.py'
+
+
+def _fn_with(**fields):
+  """setup hook: gives the TreeFn under verification key tuples of a fixed arity (the tuples are unrolled)."""
+  def setup(it, env):
+    for name, ty in fields.items():
+      env['self'].f[name] = it.fresh(ty, f'self.{name}')
+  return setup
 
 
 def register(R):
+  _c18.register(R)          # TreeMapView contracts (proved under C18) + the heap spec functions
+  R.bounded_checks.pop('C18', None)
+  c18_trusted = R.trusted.pop('C18', [])
+  R.cls('TreeFn', dict(input_keys='tuple[]', output_keys='tuple[]', masks='tuple[]', input_argkeys='tuple[]',
+                       fn_batch_size='int', batch_size='int', ignore_error='bool'))
+  region = {'S0': lambda it, env: it.default_region()}
+  RAISES = ['KeyError', 'TypeError', 'ValueError', 'AssertionError', 'IndexError']
+
+  # ---- inputs: the values selected by the input keys, aligned with them, read-only --------------------------
+  R.add(Contract(
+      f'{TF}::TreeFn._get_inputs', P, variant='three-keys', types=dict(self='TreeFn', inputs='tree'), ret='tuple[tree,tree,tree]',
+      setup=_fn_with(input_keys='tuple[keypath,keypath,keypath]'), modifies=[],
+      ensures=['result[0] is rd_path(inputs, self.input_keys[0])', 'result[1] is rd_path(inputs, self.input_keys[1])',
+               'result[2] is rd_path(inputs, self.input_keys[2])', 'frame_ok()'],
+      raises_ensures={e: ['not (rdok_path(inputs, self.input_keys[0]) and rdok_path(inputs, self.input_keys[1]) and rdok_path(inputs, self.input_keys[2]))']
+                      for e in ('KeyError', 'IndexError', 'TypeError')},
+      bounded='bounded_operator_chains',
+      note='the function receives exactly the values under its input keys, in key order; the record is only read'))
+
+  # ---- outputs: assign = copy of the record with exactly the named keys set ---------------------------------------
+  OUT_REQ = ['region_ok(S0)', 'in_region(S0, inputs)']
+  R.add(Contract(
+      f'{TF}::TreeFn._get_outputs', P, variant='one-key', types=dict(self='TreeFn', outputs='tuple[tree]', inputs='tree'), ret='tree',
+      setup=_fn_with(output_keys='tuple[keypath]'), ghost={'S0': 'region'}, site_ghost=region, modifies=['theap'],
+      requires=OUT_REQ + ['in_region(S0, outputs[0])'], may_raise=RAISES,
+      ensures=['frame_ok()', 'region_ok(grown(S0))', 'in_region(grown(S0), result)',
+               'implies(plain_path(self.output_keys[0]), reads_back(grown(S0), result, self.output_keys[0], outputs[0]))',
+               'implies(len(self.output_keys[0]) > 0 and plain_path(self.output_keys[0]) and not is_self_key(head(self.output_keys[0])) and t_kind(inputs) != 4,'
+               ' is_new(result) and t_kind(result) == t_kind(inputs) and others_shared(result, inputs, head(self.output_keys[0])))'],
+      bounded='bounded_operator_chains',
+      note='the caller\'s record is untouched at every depth (frame); the new record has the named key and shares every other entry'))
+  R.add(Contract(
+      f'{TF}::TreeFn._get_outputs', P, variant='two-keys', types=dict(self='TreeFn', outputs='tuple[tree,tree]', inputs='tree'), ret='tree',
+      setup=_fn_with(output_keys='tuple[keypath,keypath]'), ghost={'S0': 'region'}, site_ghost=region, modifies=['theap'],
+      requires=OUT_REQ + ['in_region(S0, outputs[0])', 'in_region(S0, outputs[1])'], may_raise=RAISES,
+      ensures=['frame_ok()', 'region_ok(grown(S0))', 'in_region(grown(S0), result)',
+               'implies(plain_path(self.output_keys[1]), reads_back(grown(S0), result, self.output_keys[1], outputs[1]))'],
+      bounded='bounded_operator_chains',
+      note='outputs are aligned with the output keys (the last key reads back the last output; the first one is below)'))
+
+  # ---- the tee that lets assign / filter / sink see each input next to what was computed from it ------------------
+  IU = 'ml_metrics/_src/utils/iter_utils.py'
+  R.cls('_TeeIterator', dict(_iterator='iter[obj]', _buffer_size='nat', _buffer='deque[obj]', _exhausted='bool', _returned='obj?'))
+  TEE_INV = ['self._buffer_size == 0 or len(self._buffer) <= self._buffer_size']
+
+  def _tee_setup(it, env):
+    src = env['self'].f['_iterator']
+    src.fails = None                       # upstream failures are the producer's business (C12); here: a fault-free source
+    it.ghost['pos0'] = VInt(src.pos)
+    it.ghost['buf0'] = VInt(env['self'].f['_buffer'].seq.n)
+
+  R.add(Contract(
+      f'{IU}::_TeeIterator.__next__', P, types=dict(self='_TeeIterator'), ret='obj', setup=_tee_setup, requires=TEE_INV,
+      modifies=['self._iterator', 'self._buffer', 'self._exhausted', 'self._returned'],
+      ensures=TEE_INV + [
+          # the element handed downstream is the next input, and exactly it is recorded, by reference, at the end
+          'result is self._iterator.src[pos0]', 'self._iterator.pos == pos0 + 1',
+          'len(self._buffer) == buf0 + 1', 'self._buffer[buf0] is result',
+          'forall(lambda i: self._buffer[i] is old(self._buffer[i]), 0, buf0)',
+          'self._exhausted == old(self._exhausted)'],
+      raises_ensures={
+          'StopIteration': ['pos0 >= len(self._iterator.src)', 'self._exhausted', 'len(self._buffer) == buf0',
+                            'forall(lambda i: self._buffer[i] is old(self._buffer[i]), 0, buf0)'],
+          'RuntimeError': ['self._buffer_size > 0 and buf0 == self._buffer_size', 'len(self._buffer) == buf0']},
+      bounded='bounded_operator_chains',
+      note='every input is recorded exactly once, in order, before it is handed to the operator'))
+  R.add(Contract(
+      f'{IU}::_TeeIterator.tee', P, types=dict(self='_TeeIterator'), yields='obj', setup=_tee_setup,
+      modifies=['self._buffer'],
+      loops={0: dict(invariant=['len(out) + len(self._buffer) == buf0', 'len(self._buffer) >= 0',
+                                'forall(lambda i: out[i] is old(self._buffer[i]), 0, len(out))',
+                                'forall(lambda i: self._buffer[i] is old(self._buffer[i + len(out)]), 0, len(self._buffer))'],
+                     decreases='len(self._buffer)')},
+      ensures=['self._exhausted', 'len(out) == buf0', 'len(self._buffer) == 0',
+               'forall(lambda i: out[i] is old(self._buffer[i]), 0, buf0)'],
+      raises_ensures={'IndexError': ['not self._exhausted', 'len(out) == buf0', 'len(self._buffer) == 0',
+                                     'forall(lambda i: out[i] is old(self._buffer[i]), 0, buf0)']},
+      bounded='bounded_operator_chains',
+      note='the recorded inputs are replayed first-in first-out, each once; running dry before the source is exhausted is an error, never a silent stop'))
+
+  # ---- sink: forwards every record once, in order, and is closed exactly once on every exit -----------------------------
+  from pyvc.interp import pair_snd
+  R.cls('Sink', dict(input_keys='tuple[]', output_keys='tuple[]', masks='tuple[]', input_argkeys='tuple[]',
+                     fn_batch_size='int', batch_size='int', ignore_error='bool'))
+  R.cls('_CallableSink', dict(_sink='obj'))
+
+  @R.spec
+  def snd(it, a, k):
+    return VOpaque(pair_snd(it.to_obj(a[0])))
+
+  # ASSUMED (trusted) contracts: the lazily interleaved tee/zip of processed_with_inputs is outside the engine
+  # (generators are verified as whole runs); for a one-output-per-input operator it pairs every remaining input,
+  # in order, with what was computed from it, and may fail at any element.
+  R.add(Contract(
+      f'{IU}::processed_with_inputs', 'trusted',
+      types=dict(process_fn='obj', input_iterator='iter[obj]', max_buffer_size='int', ignore_error='bool'), ret='iter[obj]',
+      modifies=['input_iterator'],
+      ensures=['result.pos == 0', 'len(result.src) == len(old(input_iterator.src)) - old(input_iterator.pos)',
+               'forall(lambda j: snd(result.src[j]) is old(input_iterator.src)[old(input_iterator.pos) + j], 0, len(result.src))']))
+  R.add(Contract(f'{TF}::Sink._actual_fn', 'trusted', types=dict(self='Sink'), ret='_CallableSink'))
+  R.add(Contract(f'{TF}::_CallableSink.close', 'trusted', types=dict(self='_CallableSink')))
+
+  def _sink_setup(it, env):
+    it.ghost['pos0'] = VInt(env['input_iterator'].pos)
+
+  R.add(Contract(
+      f'{TF}::Sink.iterate', P, types=dict(self='Sink', input_iterator='iter[obj]'), yields='obj', setup=_sink_setup,
+      modifies=['input_iterator'], abandon=True,
+      ensures=['len(out) == len(input_iterator.src) - pos0',
+               'forall(lambda i: out[i] is input_iterator.src[pos0 + i], 0, len(out))'],
+      raises_ensures={'ValueError': ['len(out) < len(input_iterator.src) - pos0',
+                                     'forall(lambda i: out[i] is input_iterator.src[pos0 + i], 0, len(out))'],
+                      # the consumer closed the generator after some element
+                      'GeneratorExit': ['len(out) >= 1 and len(out) <= len(input_iterator.src) - pos0',
+                                        'forall(lambda i: out[i] is input_iterator.src[pos0 + i], 0, len(out))']},
+      always=["ncalls('_CallableSink.close') == 1"],
+      bounded='bounded_sink_on_failure',
+      note='every record is forwarded unchanged, once, in order; the sink is closed exactly once whether the stream ends or an '
+           'operator fails or the consumer closes the generator after any element (a generator that is merely dropped is finalised by the garbage collector: known finding D22)'))
+
   R.bounded_checks[P] = [
       ('bounded_operator_chains', 'all chains of <=3 operators from 11 (select/apply/assign/filter/sink; tuple, kwargs, nested-path, SKIP keys), fused and as named stages, vs a reference interpreter; input records untouched; sinks see every record once and are closed once'),
       ('bounded_chain_api', 'TreeTransform.chain: fused (same name) and chained (different names) pairs route like the operator sequence'),
@@ -10,4 +153,7 @@ def register(R):
       ('bounded_filter_skip', 'filter under error skipping: a failing predicate drops only its record, verdicts stay aligned'),
       ('bounded_key_validation', 'invalid key combinations are rejected at build time, valid ones accepted'),
   ]
-  R.trusted[P] = ['bounded: chains of <=3 operators over a 3-record stream', 'reference interpreter written from the documented operator semantics']
+  R.trusted[P] = [t for t in c18_trusted if t.startswith('A9') or t.startswith('leaves')] + [
+      'the TreeMapView contracts used at call sites are proved under C18',
+      'ASSUMED contract of iter_utils.processed_with_inputs (lazy tee/zip interleaving of generators is outside the engine; one output per input), of Sink._actual_fn and _CallableSink.close',
+      'bounded: chains of <=3 operators over a 3-record stream', 'reference interpreter written from the documented operator semantics']
